@@ -112,8 +112,11 @@ def _prune_cache(keep, max_entries=48):
     root = os.path.join(VERIF, ".cache")
     ents = [(os.path.getmtime(os.path.join(root, e)), e) for e in os.listdir(root) if e != keep]
     ents.sort()
+    now = time.time()
     while len(ents) > max_entries:
-        _, e = ents.pop(0)
+        mt, e = ents.pop(0)
+        if now - mt < 900:
+            break       # younger than 15 min: possibly in use by a concurrent check (the thorough tier runs many at once)
         shutil.rmtree(os.path.join(root, e), ignore_errors=True)
 
 
